@@ -32,40 +32,65 @@ func RunTicker(out string, seed int64, tier string) error {
 		start := genesis - int64(rng.Intn(3*int(period)+1)) + int64(rng.Intn(2))*int64(rng.Intn(500))
 		fc := clock.NewFakeClockAt(time.Unix(start, 0))
 		cc := &countingClock{FakeClock: fc}
-		next, stop := beacon.VerifTicker(cc, time.Duration(period)*time.Second, genesis)
-		time.Sleep(3 * time.Millisecond)
 		per := time.Duration(period) * time.Second
+		// the channel is registered as the beacon handler does: at genesis (Start) or at the time of the
+		// next round (Catchup of a restarted node)
+		startAt := genesis
+		mode := "start"
+		if start >= genesis && rng.Intn(2) == 0 {
+			_, startAt = common.NextRound(start, per, genesis)
+			mode = "catchup"
+		}
+		next, stop := beacon.VerifTickerAt(cc, per, genesis, startAt)
+		emit.Quiesce(10 * time.Second)
 		drain := func(what string) {
-			// the ticker's goroutines need a moment; its channel holds one tick at a time
-			for k := 0; k < 6; k++ {
-				time.Sleep(2 * time.Millisecond)
+			// the ticker's goroutines run until they block; its channel holds one tick at a time
+			for k := 0; k < 3; k++ {
+				emit.Quiesce(10 * time.Second)
 				for {
 					r, t, ok := next()
 					if !ok {
 						break
 					}
+					wall := cc.Now().Unix()
 					cur := common.CurrentRound(t, per, genesis)
-					lines = append(lines, fmt.Sprintf("TK %d %d %d %d", period, genesis, t, r))
-					descr = append(descr, fmt.Sprintf("period=%d genesis=%d tick(time=%d, round=%d) after %s", period, genesis, t, r, what))
+					lines = append(lines, fmt.Sprintf("TK2 %d %d %d %d %d %d", period, genesis, startAt, wall, t, r))
+					descr = append(descr, fmt.Sprintf("period=%d genesis=%d %s(startAt=%d) tick(time=%d, round=%d) delivered at clock %d after %s", period, genesis, mode, startAt, t, r, wall, what))
 					rep.Evaluations++
 					rep.Count("tick/after-" + what)
+					in := map[string]interface{}{"period_s": period, "genesis": genesis, "channel_start": startAt, "mode": mode, "tick_time": t, "tick_round": r, "clock_at_delivery": wall, "after": what}
 					if r != cur || common.TimeOfRound(per, genesis, r) > t || common.TimeOfRound(per, genesis, r+1) <= t {
-						rep.Fail("C16-tick-round-is-not-the-round-of-its-time", fmt.Sprintf("the ticker announced round %d at time %d, but the round whose scheduled time is at or before that instant with the next round's time after it is %d", r, t, cur),
-							map[string]interface{}{"period_s": period, "genesis": genesis, "tick_time": t, "tick_round": r, "after": what})
+						rep.Fail("C16-tick-round-is-not-the-round-of-its-time", fmt.Sprintf("the ticker announced round %d at time %d, but the round whose scheduled time is at or before that instant with the next round's time after it is %d", r, t, cur), in)
+					}
+					// C04: whatever the clock did (stalls, jumps forward), a tick handed to the handler is for a
+					// round whose time has come on the node's own clock, and never comes before genesis
+					if t < startAt || t > wall {
+						rep.Fail("C16-tick-time-is-not-a-past-clock-reading", fmt.Sprintf("the tick carries time %d; its channel starts at %d and the clock reads %d when it is delivered", t, startAt, wall), in)
+					}
+					if common.TimeOfRound(per, genesis, r) > wall || wall < genesis {
+						rep.Fail("C04-tick-for-a-round-before-its-time-on-the-clock", fmt.Sprintf("the handler was handed a tick for round %d (scheduled time %d) while its own clock reads %d (genesis %d)", r, common.TimeOfRound(per, genesis, r), wall, genesis), in)
 					}
 				}
 			}
 		}
+		if start < genesis && rng.Intn(2) == 0 {
+			// the timer armed for genesis fires while the node's own clock, stalled, still reads before genesis
+			cc.stallWall(time.Duration(genesis-start) * time.Second)
+			drain("wallstall-before-genesis")
+		}
 		holding := false
 		for i := 0; i < steps; i++ {
-			now := fc.Now().Unix()
+			now := cc.Now().Unix()
 			toNext := period
 			if now >= genesis {
 				toNext = period - (now-genesis)%period
 			} else {
 				toNext = genesis - now
 			}
-			switch x := rng.Intn(10); {
+			switch x := rng.Intn(11); {
+			case x == 10: // the wall clock stalls (or is slewed back) while the timers keep running
+				cc.stallWall(time.Duration(1+rng.Int63n(period)) * time.Second)
+				drain("wallstall")
 			case x < 4: // exactly to the next boundary
 				fc.Advance(time.Duration(toNext) * time.Second)
 				drain("boundary")
@@ -82,9 +107,9 @@ func RunTicker(out string, seed int64, tier string) error {
 					cc.setHold(true)
 					holding = true
 					fc.Advance(time.Duration(toNext) * time.Second)
-					time.Sleep(2 * time.Millisecond)
+					emit.Quiesce(10 * time.Second)
 					fc.Advance(time.Duration(int64(1+rng.Intn(3))*period) * time.Second)
-					time.Sleep(2 * time.Millisecond)
+					emit.Quiesce(10 * time.Second)
 				} else {
 					cc.release()
 					holding = false
@@ -99,7 +124,7 @@ func RunTicker(out string, seed int64, tier string) error {
 		rep.DistinctNontrivial += steps
 		stop()
 	}
-	rep.Rule = "the real beacon ticker on a fake clock: advances to boundaries, inside rounds, bursts over several periods, stalls (ticks generated but not consumed); every announced (round, time) pair is one case; distinct = clock events"
+	rep.Rule = "the real beacon ticker on a fake clock, its channel registered as the handler does (ChannelAt genesis / next round): advances to boundaries, inside rounds, bursts over several periods, process stalls (ticks generated but not consumed), wall-clock stalls (timers run, Now stands still); every delivered (round, time) with the clock reading at delivery is one case; distinct = clock events"
 	if err := rep.Shard(out, "cases_ticker", []string{"From DV Require Import Corr.TimeCorr."}, "tcase", "mismatches", lines, descr, 800); err != nil {
 		return err
 	}
